@@ -22,7 +22,7 @@ def replay(prop_id, path):
     with open(path) as fh:
         r = json.load(fh)
     sc = r["scenario"]
-    cfg = {"name": r.get("cfg") or "default", "args": r.get("cfg_args", [])}
+    cfg = {"name": r.get("cfg") or "default", "args": r.get("cfg_args", []), "env": r.get("cfg_env") or None}
     wd = os.path.join(vc.RUN, "replay_run_%s" % prop_id)
     verdict, events, _ = ec.run_parts(prop_id, [{"name": "replay", "scenarios": [sc], "configs": [cfg]}], wd)
     for e in vc.read_ndjson(events):
@@ -38,19 +38,23 @@ def replay(prop_id, path):
 @prop("C13", "C14")
 def check_txn(prop_id, tier, seed):
     t0 = time.time()
-    depth = {"quick": 5, "thorough": 6}[tier]
-    scen, stats = vc.gen_scenarios(prop_id, "MC_Txn", "MC_Txn.cfg", ec.ENGINE_DEPS, consts={"MaxDepth": depth})
+    depth = {"quick": 6, "thorough": 8}[tier]
+    scen, stats = vc.gen_scenarios(prop_id, "MC_Txn", "MC_Txn.cfg", ec.ENGINE_DEPS, consts={"MaxDepth": depth}, workers=1)
     stats["exhaustive"] = True
-    parts = [{"name": "txn", "scenarios": scen, "configs": [{"name": "default", "args": []}]}]
+    parts = [{"name": "txn", "scenarios": scen, "configs": [{"name": "default", "args": ["--idx"]}]}]
     wd = os.path.join(vc.RUN, "work_%s" % prop_id)
     verdict, events, _ = ec.run_parts(prop_id, parts, wd)
-    return ec.finish(prop_id, tier, seed, t0, verdict, events, stats)
+    # C13 and C14 share scenarios and validation; a mismatch on SAVEPOINT / ROLLBACK TO / RELEASE belongs to C14,
+    # one on COMMIT / ROLLBACK to C13, anything else (BEGIN, DML inside the transaction, DDL) is reported by both
+    other = {"C13": ("sp", "rollto", "release"), "C14": ("commit", "rollback")}[prop_id]
+    return ec.finish(prop_id, tier, seed, t0, verdict, events, stats, owns=lambda b: b.get("a") not in other,
+                     configs=parts[0]["configs"])
 
 
 # ---------------------------------------------------------------- query semantics families (MC_Sem)
 SEM_BOUNDS = {
     "quick":    {"Max1": 2, "Max2": 1, "IntVals": "{0, 1}", "StrVals": '{"a", "A"}'},
-    "thorough": {"Max1": 3, "Max2": 2, "IntVals": "{0, 1}", "StrVals": '{"a", "A"}'},
+    "thorough": {"Max1": 3, "Max2": 1, "IntVals": "{0, 1}", "StrVals": '{"a", "A"}'},
 }
 
 
@@ -101,13 +105,38 @@ def check_c01(prop_id, tier, seed):
     return sem_check(prop_id, tier, seed, ["F1", "F1L", "F2", "F3", "F4", "F4S", "F5", "F5S", "F6", "F7"])
 
 
+# ---------------------------------------------------------------- DML under constraints (MC_Dml)
+DML_OWNS = {
+    # C09: a statement the spec accepts changed other rows / another number of rows than specified, or was refused
+    "C09": lambda b: b.get("a") in ("ins", "upd", "del") and b.get("exp") == "ok" and b.get("what") in ("state", "cnt", "out", "panic"),
+    # C10: a statement whose effect violates a declared constraint was accepted
+    # (and: after an accepted statement the PK/UNIQUE hash indexes that enforcement relies on are out of step)
+    "C10": lambda b: (b.get("exp") == "err" and b.get("obs") == "ok") or (b.get("exp") == "ok" and b.get("what") == "index")
+                     or b.get("what") == "panic",
+    # C11: a statement that failed (as specified) nevertheless changed the database or its indexes
+    "C11": lambda b: (b.get("exp") == "err" and b.get("obs") != "ok" and b.get("what") in ("state", "index")) or b.get("what") == "panic",
+}
+
+
+@prop("C09", "C10", "C11")
+def check_dml(prop_id, tier, seed):
+    t0 = time.time()
+    depth = {"quick": 6, "thorough": 8}[tier]
+    scen, stats = vc.gen_scenarios(prop_id, "MC_Dml", "MC_Dml.cfg", ec.ENGINE_DEPS, consts={"MaxDepth": depth}, workers=1)
+    stats["exhaustive"] = True
+    parts = [{"name": "dml", "scenarios": scen, "configs": [{"name": "default", "args": ["--idx"]}]}]
+    wd = os.path.join(vc.RUN, "work_%s" % prop_id)
+    verdict, events, _ = ec.run_parts(prop_id, parts, wd)
+    return ec.finish(prop_id, tier, seed, t0, verdict, events, stats, owns=DML_OWNS[prop_id], configs=parts[0]["configs"])
+
+
 # ---------------------------------------------------------------- index families (MC_Idx)
 def idx_scenarios(prop_id, tier, seed, sample, nprobes):
     import random
     depth = {"quick": 3, "thorough": 4}[tier]
     consts = {"MaxDepth": depth, "MaxRows": 3, "MaxIdx": 2}
     wd_out = {}
-    scen, stats = vc.gen_scenarios(prop_id, "MC_Idx", "MC_Idx.cfg", ec.ENGINE_DEPS, consts=consts, workers=8, timeout=3000)
+    scen, stats = vc.gen_scenarios(prop_id, "MC_Idx", "MC_Idx.cfg", ec.ENGINE_DEPS, consts=consts, workers=1, timeout=3000)
     probes = stats.get("probes")
     if probes is None:
         # the probe list is printed once by the model (ASSUME PrintT(<<"PROBES", ...>>)): regenerate it with a depth-0 run
@@ -120,7 +149,7 @@ def idx_scenarios(prop_id, tier, seed, sample, nprobes):
         stats["exhaustive"] = False
     out = []
     for sc in scen:
-        ps = probes if nprobes >= len(probes) else rnd.sample(probes, nprobes)
+        ps = probes if nprobes >= len(probes) else (rnd.sample(probes, nprobes) if nprobes else [])
         out.append({"id": sc["id"], "steps": sc["steps"] + ps})
     return out, stats
 
@@ -133,15 +162,16 @@ IDX_CONFIGS = {
 }
 
 
-def idx_check(prop_id, tier, seed, cfg_names):
+def idx_check(prop_id, tier, seed, cfg_names, owns=None, sample=None, nprobes=None):
     t0 = time.time()
-    sample = {"quick": 1500, "thorough": 12000}[tier]
-    nprobes = {"quick": 14, "thorough": 24}[tier]
+    sample = sample or {"quick": 1500, "thorough": 12000}
+    nprobes = nprobes or {"quick": 14, "thorough": 24}
+    sample, nprobes = sample[tier], nprobes[tier]
     scen, stats = idx_scenarios(prop_id, tier, seed, sample, nprobes)
     parts = [{"name": "idx", "scenarios": scen, "configs": [IDX_CONFIGS[c] for c in cfg_names]}]
     wd = os.path.join(vc.RUN, "work_%s" % prop_id)
     verdict, events, _ = ec.run_parts(prop_id, parts, wd)
-    return ec.finish(prop_id, tier, seed, t0, verdict, events, stats)
+    return ec.finish(prop_id, tier, seed, t0, verdict, events, stats, owns=owns, configs=parts[0]["configs"])
 
 
 @prop("C02")
@@ -151,7 +181,12 @@ def check_c02(prop_id, tier, seed):
 
 @prop("C15")
 def check_c15(prop_id, tier, seed):
-    return idx_check(prop_id, tier, seed, ["default"])
+    # C15 is about the index structures themselves: it owns the IndexInv mismatches (what = index) and panics;
+    # wrong query answers through an index belong to C02/C16, wrong statement outcomes to C09/C10
+    # Queries do not change index structures, so no probes are appended: every history of the bounded graph is
+    # replayed (quick: exhaustive at depth 3; thorough: depth 4, 125 038 histories).
+    return idx_check(prop_id, tier, seed, ["default"], owns=lambda b: b.get("what") in ("index", "panic"),
+                     sample={"quick": 10 ** 9, "thorough": 10 ** 9}, nprobes={"quick": 0, "thorough": 0})
 
 
 @prop("C16")
